@@ -368,3 +368,6 @@ func (p *Program) Stats() Stats {
 	}
 	return s
 }
+
+// DepFieldOrModule resolves a field of a named struct type in a module package.
+func (p *Program) DepFieldOrModule(pkg, typ, field string) *types.Var { return p.Field(pkg, typ, field) }
